@@ -10,6 +10,9 @@ LineClasses == {"K", "C", "R", "N"}
 IndentClasses == {"K", "C", "S", "N"}
 AllStrings == UNION {[1..n -> Class] : n \in 0..N} \cup UNION {[1..n -> LineClasses] : n \in (N + 1)..M}
               \cup UNION {[1..n -> IndentClasses] : n \in (N + 1)..M}
+              \* ... and one longer over both kinds of line break together with indentation (a continuation line that
+              \* ends in a bare CR needs name, colon, LF, blank, text, CR)
+              \cup UNION {[1..n -> {"K", "C", "S", "R", "N"}] : n \in (N + 1)..(N + 1)}
 MCCases == {[text |-> s] : s \in AllStrings}
 
 Emit == Done => PrintT(<<"REPLAY", ToJson([
